@@ -319,45 +319,60 @@ func repoRel(file string) string {
 }
 
 const genericFile = "node/class_generic.go"
+const origamiPkg = "github.com/php-any/origami/"
 
 // classifyRace returns the violation key of a report attributed to the property, or ""
-// and a signature for the unattributed list.
+// and a signature for the unattributed list. Attributed are reports in which one of the
+// two accesses is made by the generic-class code itself: a function of
+// node/class_generic.go, or the construction/caching of an instantiation in
+// (*NewClassGenerated).resolveClass.
 func classifyRace(rep [2][]raceFrame) (key string, sig string) {
 	var sigs []string
-	sharedDecl := false
+	sharedDecl, construction := false, false
 	var hit *raceFrame
 	for _, fr := range rep {
 		if len(fr) > 0 {
 			sigs = append(sigs, repoRel(fr[0].file)+":"+shortFn(fr[0].fn))
 		}
-		for i := 0; i < 2 && i < len(fr); i++ {
-			if repoRel(fr[i].file) == genericFile {
-				if hit == nil {
-					f := fr[i]
-					hit = &f
-				}
-				if i == 1 && strings.HasSuffix(fr[0].fn, "(*ClassProperty).SetType") && strings.HasSuffix(fr[1].fn, "(*ClassGeneric).GetProperty") {
-					sharedDecl = true
-				}
+		// the access is made by the first interpreter frame below Go runtime frames (map
+		// access, memmove …) and below the accessors of the property declaration's type
+		k := 0
+		for k < len(fr) && (!strings.HasPrefix(fr[k].fn, origamiPkg) ||
+			strings.HasSuffix(fr[k].fn, "(*ClassProperty).SetType") || strings.HasSuffix(fr[k].fn, "(*ClassProperty).GetType")) {
+			k++
+		}
+		if k >= len(fr) {
+			continue
+		}
+		by := fr[k]
+		switch {
+		case strings.HasSuffix(by.fn, "(*NewClassGenerated).resolveClass"):
+			construction = true
+		case strings.HasSuffix(by.fn, "(*ClassGeneric).Clone"):
+			construction = true
+		case repoRel(by.file) == genericFile:
+			if hit == nil {
+				hit = &by
+			}
+			if k > 0 && strings.HasSuffix(fr[k-1].fn, "(*ClassProperty).SetType") && strings.HasSuffix(by.fn, "(*ClassGeneric).GetProperty") {
+				sharedDecl = true
 			}
 		}
 	}
 	sort.Strings(sigs)
 	sig = strings.Join(sigs, " <-> ")
-	if hit == nil {
-		return "", sig
-	}
-	if sharedDecl {
+	switch {
+	case sharedDecl:
+		// the shared property declaration is overwritten by one coroutine while another reads it
 		return "shared-decl/race@" + genericFile + ":(*ClassGeneric).GetProperty:SetType", sig
+	case construction:
+		// one side builds (type-argument map, Clone) or caches a fresh instantiation object in
+		// the `new` node: it reaches another coroutine through that cache without synchronisation
+		return "unsafe-publication/race@node/new.go:(*NewClassGenerated).resolveClass", sig
+	case hit != nil:
+		return "race@" + genericFile + ":" + shortFn(hit.fn), sig
 	}
-	for _, fr := range rep {
-		// one side is the initialisation of a fresh instantiation object: it was handed to
-		// another coroutine (through the `new` node's cache) without synchronisation
-		if len(fr) > 0 && strings.HasSuffix(fr[0].fn, "(*ClassGeneric).Clone") {
-			return "unsafe-publication/race@" + genericFile + ":(*ClassGeneric).Clone", sig
-		}
-	}
-	return "race@" + genericFile + ":" + shortFn(hit.fn), sig
+	return "", sig
 }
 
 // ---------------------------------------------------------------------------------
